@@ -132,6 +132,7 @@ def _work(args):
                 # the same diagram as a tensor.Diagram of tensor boxes, evaluated by .eval()
                 try:
                     td = tensor.Id(Dim(*flat(dabs["dom"])))
+                    tdi = td            # the same diagram with integer-valued boxes (real parts, int dtype)
                     for b, o in zip(dabs["boxes"], dabs["offs"]):
                         dm = Dim(*flat(b["dom"]))
                         cd = Dim(*flat(b["cod"]))
@@ -147,12 +148,21 @@ def _work(args):
                         lw = Dim(*flat(_scan_at(dabs, b, o)[0]))
                         rw = Dim(*flat(_scan_at(dabs, b, o)[1]))
                         td = td >> tensor.Id(lw) @ tb @ tensor.Id(rw)
+                        if b["kind"] == 1:
+                            tbi = tb
+                        else:
+                            und = (b["cod"], b["dom"]) if b["dg"] else (b["dom"], b["cod"])
+                            arr = np.real(gen(b["id"], size(und[0]), size(und[1]))).astype(int).reshape(shape(und[0]) + shape(und[1]))
+                            tbi = tensor.Box("i%d" % b["id"], Dim(*flat(und[0])), Dim(*flat(und[1])), arr)
+                            tbi = tbi.dagger() if b["dg"] else tbi
+                        tdi = tdi >> tensor.Id(lw) @ tbi @ tensor.Id(rw)
                     rec["variants"].append(variant("tensor_eval", proj(td.eval())))
                     biggest = max(abs(a) for e2 in rec["variants"][-1]["val"]["a"] for a in e2)
                     # bubbles: the entrywise image of the inside under the bubble's function
                     if biggest < 20000:   # TLC integers are 32-bit
                         rec["variants"].append(variant("bubble_sq", proj(td.bubble(func=lambda v: v * v).eval())))
                     rec["variants"].append(variant("bubble_1m", proj(td.bubble(func=lambda v: 1 - v).eval())))
+                    rec["variants"].append(variant("bubble_i", proj(tdi.bubble(func=lambda v: v * 1j).eval())))
                     # formal sums: with a parallel diagram from the model (the previous one of the same type)
                     key = (json.dumps(dabs["dom"]), json.dumps(dabs["cod"]))
                     prev = seen_parallel.get(key)
